@@ -156,6 +156,13 @@ func Minimize(t *testing.T, sc *Scenario, trace []Decision, v Violation, maxRuns
 		for ai := range m.best.Actors {
 			for oi := range m.best.Actors[ai].Ops {
 				o := m.best.Actors[ai].Ops[oi]
+				if o.Hold != nil {
+					c := cloneScenario(m.best)
+					c.Actors[ai].Ops[oi].Hold = nil
+					if m.try(c, 1) {
+						progress = true
+					}
+				}
 				if o.Sim != "" || o.Cookie != "" {
 					c := cloneScenario(m.best)
 					c.Actors[ai].Ops[oi].Sim = ""
